@@ -49,6 +49,30 @@
 		});
 		t.finish();
 	}
+	/// the same over an alphabet with a two-byte and a three-byte character: byte offsets and character positions differ
+	#[test]
+	fn map_desc_with_multibyte_names() {
+		let mut t = Tally::new("map_desc_with_multibyte_names");
+		let syms: [&[u8]; 7] = [b"L", b";", b"[", b"a", "\u{e9}".as_bytes(), "\u{20ac}".as_bytes(), b"I"];
+		let mut idx: Vec<usize> = Vec::new();
+		fn rec(syms: &[&[u8]; 7], left: usize, idx: &mut Vec<usize>, f: &mut dyn FnMut(&[u8])) {
+			let s: Vec<u8> = idx.iter().flat_map(|&i| syms[i].iter().copied()).collect();
+			f(&s);
+			if left == 0 { return; }
+			for i in 0..syms.len() { idx.push(i); rec(syms, left - 1, idx, f); idx.pop(); }
+		}
+		rec(&syms, 6, &mut idx, &mut |b| { t.at(b);
+			let want = o_map_desc(b);
+			t.case(want.as_ref().is_some_and(|w| w != b) && !b.is_ascii());
+			let owned = b.to_vec();
+			match guarded(move || unsafe { map_desc(&R, js(&owned)) }.ok().map(|x| x.as_bytes().to_vec())) {
+				Err(()) => t.fail(show(b), "does not terminate"),
+				Ok(None) => t.fail(show(b), "panicked"),
+				Ok(Some(got)) => if got != want { t.fail(show(b), "output differs from `replace exactly the L...; names, keep everything else`") },
+			}
+		});
+		t.finish();
+	}
 	#[test]
 	fn map_class_identity_fallback() {
 		let mut t = Tally::new("map_class_identity_fallback");
